@@ -13,10 +13,10 @@ func init() {
 	register(&propDef{
 		ID:      "C02",
 		Level:   "other",
-		Explain: "Atomic replacement, last-good-table and crash-freedom conditions decided on all paths/sites; sites are found by role, no unexported function is named. (A1) the active table lives in exactly one package-level sync/atomic cell (atomic.Value, atomic.Pointer[Table], bare, behind a pointer, or wrapped in a struct with load/store methods) that is used only as the receiver of atomic operations; outside package initialisation it is stored only the parameter of the storing function, and it is loaded only by parameterless getters that return the table (transitively for unexported loaders); no plain package-level Table variable. (A2) nothing writes a table after it has been handed to the publishing store or to any function that hands its parameter on to it (shared rule for the store and its innermost wrapper, own rule for outer wrappers). (A3) no function reachable from a per-request entry writes a shared route.Table/Route/Target (all schedules). (A4) one table snapshot per lookup, also when the getter is called through a parameterless helper. (L1) every value that enters the publication chain outside package initialisation is nil or a constructor's result that is nil on every error: the constructor's own result, the result of a helper that hands it on (judged return by return), a merge or a helper parameter of such values - else the site must be dominated by the err == nil edge. (L2) NewTable/NewTableCustom and the helpers whose two results they hand on return a nil table with every possibly-non-nil error. (L3) the atomic store is reached only with a non-nil table (dominating t != nil in the storing function, or in every caller of an unexported storing helper). (L4) for every call of the text constructor from which a published table derives: the innermost loop around it (or around the call of the helper that contains it) is the update loop; walking forward from the constructor call along branches consistent with 'the constructor returned an error' (err != nil; one level up: the constants the helper returns on that path) every path comes back to the loop head without return/exit/panic and the last installed text arrives unchanged; the last installed text is a string (immutable snapshot) that is compared with the candidate text and receives it on the success path - as a loop-carried local, or as a captured variable / field of a watcher struct. (P1) constant indices into strings.Split-family results (also out of a small helper) need a dominating length fact, submatch indices a dominating m != nil and enough capture groups in the constant pattern (or a dominating length fact), slice bounds from strings.Index* a dominating >= 0 test. (P3) integer divisions in the builder/lookup region need a non-zero fact (for a helper parameter: at every call site). (P4) a float parsed by strconv.ParseFloat in the builder leaves its parser only under tests excluding NaN and both infinities (math.IsNaN/IsInf, f != f, |f| > MaxFloat64, or a predicate helper implying them); computed allocation sizes need a non-negative fact. (P7) no MustCompile(non-constant)/panic below Table.Lookup/LookupHost. (P8) the custom definition list is dereferenced only under a nil test, in NewTableCustom or the helpers it hands the pointer to. (P9) every store to Route.Glob stores the result of a glob.Compile that returned no error (through compile wrappers - also ones that return through result slots because of a deferred unlock -, route constructors, and memos of compiled patterns: a map or sync.Map entry that is known to be present counts when everything ever stored into that memo is such a result), and Route literals set Glob. Not decided: that gobwas/glob.Compile, net/url.Parse and regexp never panic (trusted).",
+		Explain: "Atomic replacement, last-good-table and crash-freedom conditions decided on all paths/sites; sites are found by role, no unexported function is named. (A1) the active table lives in exactly one package-level sync/atomic cell (atomic.Value, atomic.Pointer[Table], bare, behind a pointer, or wrapped in a struct with load/store methods) that is used only as the receiver of atomic operations; outside package initialisation it is stored only the parameter of the storing function, and it is loaded only by parameterless getters that return the table (transitively for unexported loaders); no plain package-level Table variable. (A2) nothing writes a table after it has been handed to the publishing store or to any function that hands its parameter on to it (shared rule for the store and its innermost wrapper, own rule for outer wrappers). (A3) no function reachable from a per-request entry writes a shared route.Table/Route/Target (all schedules). (A4) one table snapshot per lookup, also when the getter is called through a parameterless helper. (L1) every value that enters the publication chain outside package initialisation is nil or a constructor's result that is nil on every error: the constructor's own result, the result of a helper that hands it on (judged return by return), a merge or a helper parameter of such values - else the site must be dominated by the err == nil edge. (L2) NewTable/NewTableCustom and the helpers whose two results they hand on return a nil table with every possibly-non-nil error - judged per source-level return: where results travel through result variables (a deferred literal, a `return` inside the body of a range-over-func loop) at the places that assign them; a table that is nil on every merge edge on which the error may be non-nil counts as nil. (L3) the atomic store is reached only with a non-nil table (dominating t != nil in the storing function, or in every caller of an unexported storing helper). (L4) for every call of the text constructor from which a published table derives: the innermost loop around it (or around the call of the helper that contains it) is the update loop; walking forward from the constructor call along branches consistent with 'the constructor returned an error' (err != nil; one level up: the constants the helper returns on that path) every path comes back to the loop head without return/exit/panic and the last installed text arrives unchanged; the last installed text is a string (immutable snapshot) that is compared with the candidate text and receives it on the success path - as a loop-carried local, or as a captured variable / field of a watcher struct. (P1) constant indices into strings.Split-family results (also out of a small helper) need a dominating length fact, submatch indices a dominating m != nil and enough capture groups in the constant pattern (or a dominating length fact), slice bounds from strings.Index* a dominating >= 0 test. (P3) integer divisions in the builder/lookup region need a non-zero fact (for a helper parameter, or an expression over a helper's parameters such as len(r.l): at every call site, with small accessor and predicate helpers opened). (P4) a float parsed by strconv.ParseFloat in the builder leaves its parser only under tests excluding NaN and both infinities (math.IsNaN/IsInf, f != f, |f| > MaxFloat64, or a predicate helper implying them); computed allocation sizes need a non-negative fact. (P7) no MustCompile(non-constant)/panic below Table.Lookup/LookupHost. (P8) the custom definition list is dereferenced only under a nil test (a comparison, or a predicate helper all of whose ways to that verdict test it), in NewTableCustom, the helpers it hands the pointer to, or a function literal that captures it and is made under the test. (P9) every store to Route.Glob stores the result of a glob.Compile that returned no error (through compile wrappers - also ones that return through result slots because of a deferred unlock -, route constructors, and memos of compiled patterns: a map or sync.Map entry that is known to be present counts when everything ever stored into that memo is such a result), or the store fills a route made in the same function that leaves it only where the compile error is known to be nil; and Route literals set Glob. The regions of the P rules continue through function literals and the bodies of range-over-func loops. Not decided: that gobwas/glob.Compile, net/url.Parse and regexp never panic (trusted).",
 		Run:     runC02,
 		Trusted: []string{"sync/atomic.Value Load/Store are atomic", "gobwas/glob.Compile, net/url.Parse, regexp matching do not panic", "encoding/json stores nil into a pointer for the JSON text null"},
-		Mutants: append([]mutant{
+		Mutants: append(append([]mutant{
 			{Name: "last table kept as a view of the reused buffer", File: "main.go", Old: "\t\tlastTable   string\n", New: "\t\tlastTable   []byte\n", Expect: "C02.L4", More: []repl{{"\t\tnextTable   string\n", "\t\tnextTable   []byte\n"}, {"if nextTable = tableBuffer.String(); nextTable == lastTable {", "if nextTable = tableBuffer.Bytes(); bytes.Equal(nextTable, lastTable) {"}, {"aliases, err := route.ParseAliases(nextTable)", "aliases, err := route.ParseAliases(string(nextTable))"}, {"logRoutes(t, lastTable, nextTable, cfg.Log.RoutesFormat)", "logRoutes(t, string(lastTable), string(nextTable), cfg.Log.RoutesFormat)"}}},
 
 			{Name: "plain package variable for the table", File: "route/table.go", Old: "func GetTable() Table {\n\treturn table.Load().(Table)\n}", New: "var plainTable Table\n\nfunc GetTable() Table {\n\tif plainTable != nil {\n\t\treturn plainTable\n\t}\n\treturn table.Load().(Table)\n}", Expect: "C02.A1"},
@@ -35,7 +35,7 @@ func init() {
 			{Name: "MustCompile on the request path again", File: "route/table.go", Old: "\t\t\t// a pattern which does not compile cannot match\n\t\t\tlog.Print(\"[ERROR] Compiling glob - \", err)\n\t\t\tcontinue", New: "\t\t\tg = glob.MustCompile(normpat)", Expect: "C02.P7"},
 			{Name: "path that is not a glob keeps a nil matcher", File: "route/table.go", Old: "\t\tg, err := glob.Compile(path)\n\t\tif err != nil {\n\t\t\treturn err\n\t\t}\n\t\tr := &Route{Host: host, Path: path, Glob: g}\n\t\tr.addTarget(d.Service, targetURL, d.Weight, d.Tags, d.Opts)\n\t\tt[host] = Routes{r}", New: "\t\tg, err := glob.Compile(path)\n\t\tif err != nil {\n\t\t\tlog.Printf(\"[WARN] route: path %q is not a valid glob: %s\", path, err)\n\t\t}\n\t\tr := &Route{Host: host, Path: path, Glob: g}\n\t\tr.addTarget(d.Service, targetURL, d.Weight, d.Tags, d.Opts)\n\t\tt[host] = Routes{r}", Expect: "C02.P9"},
 			{Name: "benign: atomic.Pointer-like helper around SetTable", File: "main.go", Old: "\t\t\troute.SetTable(t)\n", New: "\t\t\tinstall := route.SetTable\n\t\t\tinstall(t)\n", Expect: ""},
-		}, c02moreMutants...),
+		}, c02moreMutants...), c02round3Mutants...),
 	})
 }
 
@@ -153,7 +153,7 @@ func runC02A4wrappers(c *Ctx, x *c02pubs) int {
 	}
 	for changed := true; changed; {
 		changed = false
-		for _, f := range c.AllFns {
+		for _, f := range c02fns(c) {
 			if getterLike[f] || f.Signature.Params().Len() != 0 || f.Signature.Recv() != nil || f.Signature.Results().Len() != 1 || !c02isTableType(f.Signature.Results().At(0).Type()) {
 				continue
 			}
